@@ -44,7 +44,10 @@ pub fn one(ctx: &mut Ctx, src: &str) {
 
 pub fn run(ctx: &mut Ctx) {
     for s in ["schema", "schema @d", "{ a(b: {c: 1 d}) }", "type A", "extend type A", "{ a }", "query { ... on T { a } ...F }", "extend schema @d", "\"d\" { a }", "\"d\" query { a }",
-              "directive @d on | QUERY", "type A implements & B & C { a: Int }", "union U = | A | B", "enum E { true }", "fragment on on T { a }", "{ a(x: $v) }", "query($a: Int = $b) { a }", "{ ...on }"] { one(ctx, s); }
+              "directive @d on | QUERY", "type A implements & B & C { a: Int }", "union U = | A | B", "enum E { true }", "fragment on on T { a }", "{ a(x: $v) }", "query($a: Int = $b) { a }", "{ ...on }",
+              // empty braces after directives (found by the 6-token enumeration of the thorough tier, fixed by 50fb92a)
+              "extend schema @d { }", "extend schema { }", "extend schema @d { query: Q }", "schema @d { }", "extend type A @d { }", "extend interface A @d { }",
+              "extend enum A @d { }", "extend input A @d { }", "extend union A @d ="] { one(ctx, s); }
     let mut seqs = vec![];
     token_seqs(&["{", "}", "(", ")", ":", "$", "@", "a", "on", "query", "type", "extend", "schema", "...", "1"], if ctx.thorough { 6 } else { 5 }, |s| seqs.push(s.to_string()));
     ctx.stat_n("token_seqs", seqs.len() as u64);
